@@ -587,6 +587,16 @@ pub fn generate(seed: u64, run: u64, prop: &str) -> Generated {
             }
         }
     }
+    // a WHERE conjunct on a key column may narrow it to a public set in the compiler's reading
+    for k in keys.iter_mut() {
+        if !k.expr.starts_with("CASE") && where_.iter().any(|w| w.contains(k.expr.as_str())) {
+            k.ambiguous = true;
+        }
+        // ... and so may an equality with a column of another table in a join condition
+        if from.iter().any(|f| f.on.as_deref().map_or(false, |on| on.contains(k.expr.as_str()))) {
+            k.ambiguous = true;
+        }
+    }
     // columns of the nullable side of a LEFT JOIN are nullable whatever their declared type
     for k in keys.iter_mut() {
         for f in from.iter().filter(|f| f.kind == "LEFT JOIN") {
